@@ -14,6 +14,41 @@ import PrologVerif.Spec.SLD
 namespace PrologVerif.Refine
 open PrologVerif PrologVerif.VM PrologVerif.DecompileCompile
 
+/-! ### pointwise relation of two lists -/
+
+inductive Forall2 {α β : Type} (R : α → β → Prop) : List α → List β → Prop
+  | nil : Forall2 R [] []
+  | cons {a : α} {b : β} {as : List α} {bs : List β} : R a b → Forall2 R as bs → Forall2 R (a :: as) (b :: bs)
+
+theorem Forall2.length_eq {α β : Type} {R : α → β → Prop} {as : List α} {bs : List β} (h : Forall2 R as bs) :
+    as.length = bs.length := by
+  induction h with
+  | nil => rfl
+  | cons _ _ ih => simp [ih]
+
+theorem Forall2.append {α β : Type} {R : α → β → Prop} {as as' : List α} {bs bs' : List β}
+    (h : Forall2 R as bs) (h' : Forall2 R as' bs') : Forall2 R (as ++ as') (bs ++ bs') := by
+  induction h with
+  | nil => exact h'
+  | cons hd _ ih => exact .cons hd ih
+
+theorem Forall2.imp_mem {α β : Type} {R S : α → β → Prop} {as : List α} {bs : List β} (h : Forall2 R as bs)
+    (hRS : ∀ a ∈ as, ∀ b, R a b → S a b) : Forall2 S as bs := by
+  induction h with
+  | nil => exact .nil
+  | cons hd _ ih => exact .cons (hRS _ (by simp) _ hd) (ih (fun a ha => hRS a (by simp [ha])))
+
+theorem Forall2.imp {α β : Type} {R S : α → β → Prop} {as : List α} {bs : List β} (h : Forall2 R as bs)
+    (hRS : ∀ a b, R a b → S a b) : Forall2 S as bs := by
+  induction h with
+  | nil => exact .nil
+  | cons hd _ ih => exact .cons (hRS _ _ hd) ih
+
+theorem forall2_maps {α β γ : Type} {R : β → γ → Prop} (f : α → β) (g : α → γ) :
+    ∀ l : List α, (∀ a ∈ l, R (f a) (g a)) → Forall2 R (l.map f) (l.map g)
+  | [], _ => .nil
+  | a :: l, h => .cons (h a (by simp)) (forall2_maps f g l (fun a' ha' => h a' (by simp [ha'])))
+
 /-! ## the fragment -/
 
 /-- names with a meaning of their own in the VM model (`VM.builtin`) or in the reference interpreter
@@ -66,6 +101,54 @@ structure HornFrag (prog : List Term) (query : Term) : Prop where
   wf : wfT query = true
   small : SLD.maxVar query + 10 ≤ 1000000
 
+/-- `call(G)` -/
+def isCall1 : Term → Bool
+  | .app "call" (.cons _ .nil) => true
+  | _ => false
+
+/-- the control constructs as goals: `call(G)`, `(C -> T ; E)`, `(C -> T)`, `once(G)`, `\\+ G` -/
+def ctlGoal : Term → Bool
+  | .app "call" (.cons _ .nil) => true
+  | .app "once" (.cons _ .nil) => true
+  | .app "\\+" (.cons _ .nil) => true
+  | .app ";" (.cons (.app "->" (.cons _ (.cons _ .nil))) (.cons _ .nil)) => true
+  | .app "->" (.cons _ (.cons _ .nil)) => true
+  | _ => false
+
+/-- a goal `arrive` sees (not the cut): a Horn goal, or — in the fragments with control constructs
+    (`s = true`) — a control construct -/
+def stepGoal (s : Bool) (t : Term) : Bool := hornGoal t || (s && ctlGoal t)
+
+/-- a goal of the fragment: the cut or a `stepGoal` -/
+def goalS (s : Bool) (t : Term) : Bool := t == .atom "!" || stepGoal s t
+
+def bodyS (s : Bool) (b : Term) : Bool := (SLD.conjuncts b).all (goalS s)
+
+/-- a body whose top-level disjuncts are bodies: what `call/1` may be given -/
+def dbodyS (s : Bool) (b : Term) : Bool := (SLD.disjuncts b).all (bodyS s)
+
+def clauseS (s : Bool) (c : Term) : Bool :=
+  wfT c && hornHead (SLD.headBody c).1 && dbodyS s (SLD.headBody c).2
+
+/-- a head the compiler accepts (any name but the list and the clause functor) -/
+def headOK : Term → Bool
+  | .atom _ => true
+  | .app f as => decide (1 ≤ as.length) && f != "." && f != ":-"
+  | _ => false
+
+/-- a clause the compiler turns into one compiled clause, its body in the fragment: the clauses
+    of the program (`clauseS`: with a user predicate name), the clause `call/1` compiles, and the
+    control clauses of bootstrap.pl -/
+def clauseC (s : Bool) (c : Term) : Bool :=
+  wfT c && headOK (SLD.headBody c).1 && bodyS s (SLD.headBody c).2
+
+structure FragS (s : Bool) (prog : List Term) (query : Term) : Prop where
+  clauses : ∀ c ∈ prog, clauseS s c = true
+  goal : dbodyS s query = true
+  wf : wfT query = true
+  nonvar : ∀ v, query ≠ .var v
+  small : SLD.maxVar query + 10 ≤ 1000000
+
 /-- a goal of the stage-2 fragment: a Horn goal or the cut -/
 def cutGoal (t : Term) : Bool := t == .atom "!" || hornGoal t
 
@@ -82,6 +165,24 @@ structure CutFrag (prog : List Term) (query : Term) : Prop where
   goal : bodyOK query = true
   wf : wfT query = true
   small : SLD.maxVar query + 10 ≤ 1000000
+
+theorem goalS_false (t : Term) : goalS false t = cutGoal t := by simp [goalS, stepGoal, cutGoal]
+theorem bodyS_false (b : Term) : bodyS false b = bodyOK b := by
+  simp only [bodyS, bodyOK]; congr 1; funext t; exact goalS_false t
+/-- **the fragment (stage 3)**: stage 2 + the control constructs `ctlGoal` as goals of clause bodies,
+    of the query and of the goals that are called: `call/1` (also as a variable in goal position),
+    if-then-else, if-then, `once/1`, `\\+`/1; + disjunction at the top level of clause bodies, of the
+    query and of called goals (`dbodyS`).  Decidable. -/
+abbrev CtlFrag (prog : List Term) (query : Term) : Prop := FragS true prog query
+/-- (the name under which stage 3a was delivered) -/
+abbrev CallFrag (prog : List Term) (query : Term) : Prop := FragS true prog query
+
+theorem goalS_mono {t : Term} (h : goalS false t = true) (s : Bool) : goalS s t = true := by
+  simp only [goalS, stepGoal, Bool.or_eq_true, Bool.and_eq_true, Bool.false_and, Bool.false_eq_true,
+    or_false] at h ⊢
+  rcases h with h | h
+  · exact Or.inl h
+  · exact Or.inr (Or.inl h)
 
 theorem cutGoal_of_horn {t : Term} (h : hornGoal t = true) : cutGoal t = true := by
   simp [cutGoal, h]
@@ -261,8 +362,127 @@ theorem cutGoal_cases {g : Term} (h : cutGoal g = true) : g = .atom "!" ∨ horn
   simp only [cutGoal, Bool.or_eq_true, beq_iff_eq] at h
   exact h
 
+theorem goalS_cases {s : Bool} {g : Term} (h : goalS s g = true) : g = .atom "!" ∨ stepGoal s g = true := by
+  simp only [goalS, Bool.or_eq_true, beq_iff_eq] at h
+  exact h
+
+theorem bodyOK_not_var {b : Term} (h : bodyOK b = true) : ∀ v, b ≠ .var v := by
+  rintro v rfl
+  simp only [bodyOK, SLD.conjuncts, SLD.wrapVar, SLD.call1, List.all_cons, List.all_nil, Bool.and_true] at h
+  rcases cutGoal_cases h with h | h
+  · cases h
+  rcases hornGoal_shape h with ⟨f, hf, _⟩ | ⟨a, b, hab⟩ | ⟨f, as, hfa, hu, _⟩
+  · cases hf
+  · simp at hab
+  · simp only [Term.app.injEq] at hfa
+    obtain ⟨rfl, rfl⟩ := hfa
+    exact reserved_not_user hu (by decide)
+
+theorem isCall1_shape {g : Term} (h : isCall1 g = true) : ∃ x, g = .app "call" (.cons x .nil) := by
+  unfold isCall1 at h
+  split at h
+  · rename_i x; exact ⟨x, rfl⟩
+  · cases h
+
+/-- the control constructs, by shape -/
+inductive Ctl (g : Term) : Prop
+  | call (x : Term) : g = .app "call" (.cons x .nil) → Ctl g
+  | ite (c t e : Term) : g = .app ";" (.cons (.app "->" (.cons c (.cons t .nil))) (.cons e .nil)) → Ctl g
+  | ifthen (c t : Term) : g = .app "->" (.cons c (.cons t .nil)) → Ctl g
+  | once (x : Term) : g = .app "once" (.cons x .nil) → Ctl g
+  | neg (x : Term) : g = .app "\\+" (.cons x .nil) → Ctl g
+
+theorem ctlGoal_shape {g : Term} (h : ctlGoal g = true) : Ctl g := by
+  unfold ctlGoal at h
+  split at h
+  · exact .call _ rfl
+  · exact .once _ rfl
+  · exact .neg _ rfl
+  · exact .ite _ _ _ rfl
+  · exact .ifthen _ _ rfl
+  · cases h
+
+theorem ctlGoal_app {g : Term} (h : ctlGoal g = true) : ∃ f a as, g = .app f (.cons a as) := by
+  cases ctlGoal_shape h with
+  | call x hx => exact ⟨_, _, _, hx⟩
+  | ite c t e hx => exact ⟨_, _, _, hx⟩
+  | ifthen c t hx => exact ⟨_, _, _, hx⟩
+  | once x hx => exact ⟨_, _, _, hx⟩
+  | neg x hx => exact ⟨_, _, _, hx⟩
+
+/-- a `stepGoal`: a Horn goal or (with control constructs) a control construct -/
+theorem stepGoal_cases {s : Bool} {g : Term} (h : stepGoal s g = true) :
+    hornGoal g = true ∨ (s = true ∧ Ctl g) := by
+  simp only [stepGoal, Bool.or_eq_true, Bool.and_eq_true] at h
+  rcases h with h | ⟨h1, h2⟩
+  · exact Or.inl h
+  · exact Or.inr ⟨h1, ctlGoal_shape h2⟩
+
+theorem not_horn_reserved {f : String} {as : Args} (hf : f ∈ reservedNames) (hne : f ≠ "=") :
+    hornGoal (.app f as) = false := by
+  cases h : hornGoal (.app f as) with
+  | false => rfl
+  | true =>
+    exfalso
+    simp only [hornGoal, Bool.and_eq_true, Bool.or_eq_true, beq_iff_eq, decide_eq_true_eq] at h
+    rcases h.2 with h2 | h2
+    · exact hne h2.1
+    · exact reserved_not_user h2 hf
+
+theorem disjuncts_horn (b : Term) {fl : Bool} (h : bodyS fl b = true) : SLD.disjuncts b = [b] := by
+  unfold SLD.disjuncts
+  split
+  · rfl
+  · rename_i a b' hna
+    exfalso
+    have : SLD.conjuncts (.app ";" (.cons a (.cons b' .nil))) = [.app ";" (.cons a (.cons b' .nil))] := by
+      simp [SLD.conjuncts, SLD.wrapVar]
+    simp only [bodyS, this, List.all_cons, List.all_nil, Bool.and_true] at h
+    rcases goalS_cases h with h | h
+    · simp [SLD.mk2] at h
+    rcases stepGoal_cases h with h | ⟨_, hc⟩
+    · rw [not_horn_reserved (by decide) (by decide)] at h; cases h
+    · cases hc with
+      | call x' hx' => simp at hx'
+      | ite c t e hx' =>
+        simp only [Term.app.injEq, Args.cons.injEq, true_and, and_true] at hx'
+        exact hna c t hx'.1
+      | ifthen c t hx' => simp at hx'
+      | once x' hx' => simp at hx'
+      | neg x' hx' => simp at hx'
+  · rfl
+
+
+theorem dbodyS_of_body {fl : Bool} {b : Term} (h : bodyS fl b = true) : dbodyS fl b = true := by
+  simp [dbodyS, disjuncts_horn b h, h]
+
+
+theorem FragS.of_cut {prog : List Term} {query : Term} (h : CutFrag prog query) : FragS false prog query :=
+  ⟨fun c hc => by
+      have := h.clauses c hc
+      simp only [clauseOK, clauseS, Bool.and_eq_true] at this ⊢
+      exact ⟨this.1, dbodyS_of_body (by rw [bodyS_false]; exact this.2)⟩, dbodyS_of_body (by rw [bodyS_false]; exact h.goal), h.wf,
+    bodyOK_not_var h.goal, h.small⟩
+
+theorem FragS.mono {prog : List Term} {query : Term} (h : FragS false prog query) (s : Bool) : FragS s prog query := by
+  have hb : ∀ b, bodyS false b = true → bodyS s b = true := by
+    intro b hb
+    simp only [bodyS, List.all_eq_true] at hb ⊢
+    exact fun t ht => goalS_mono (hb t ht) s
+  refine ⟨fun c hc => ?_, ?_, h.wf, h.nonvar, h.small⟩
+  rotate_left
+  · have := h.goal
+    simp only [dbodyS, List.all_eq_true] at this ⊢
+    exact fun dj hdj => hb dj (this dj hdj)
+  have := h.clauses c hc
+  simp only [clauseS, Bool.and_eq_true] at this ⊢
+  refine ⟨this.1, ?_⟩
+  have h2 := this.2
+  simp only [dbodyS, List.all_eq_true] at h2 ⊢
+  exact fun dj hdj => hb dj (h2 dj hdj)
+
 /-- a body of the fragment is not a disjunction: the compiler sees ONE alternative -/
-theorem altBodies_toRep (b : Term) (h : bodyOK b = true) : altBodies (toRep b) = [toRep b] := by
+theorem altBodies_toRep {s : Bool} (b : Term) (h : bodyS s b = true) : altBodies (toRep b) = [toRep b] := by
   cases b with
   | app f as =>
     by_cases hf : f = "."
@@ -276,7 +496,6 @@ theorem altBodies_toRep (b : Term) (h : bodyOK b = true) : altBodies (toRep b) =
       · rename_i a b' heq
         simp only [Rep.compound.injEq] at heq
         obtain ⟨rfl, hargs⟩ := heq
-        exfalso
         cases as with
         | nil => simp [toReps] at hargs
         | cons x xs =>
@@ -287,15 +506,28 @@ theorem altBodies_toRep (b : Term) (h : bodyOK b = true) : altBodies (toRep b) =
             | nil =>
               have : SLD.conjuncts (.app ";" (.cons x (.cons y .nil))) = [.app ";" (.cons x (.cons y .nil))] := by
                 simp [SLD.conjuncts, SLD.wrapVar]
-              simp only [bodyOK, this, List.all_cons, List.all_nil, Bool.and_true] at h
-              rcases cutGoal_cases h with h | h
-              · cases h
-              rcases hornGoal_shape h with ⟨f, hf', _⟩ | ⟨a, b, hab⟩ | ⟨f, as, hfa, hu, _⟩
-              · cases hf'
-              · simp at hab
-              · simp only [Term.app.injEq] at hfa
-                obtain ⟨rfl, rfl⟩ := hfa
-                exact reserved_not_user hu (by decide)
+              simp only [bodyS, this, List.all_cons, List.all_nil, Bool.and_true] at h
+              have hx : ∃ c t, x = .app "->" (.cons c (.cons t .nil)) := by
+                rcases goalS_cases h with h | h
+                · cases h
+                rcases stepGoal_cases h with h | ⟨_, hc⟩
+                · rw [not_horn_reserved (by decide) (by decide)] at h; cases h
+                · cases hc with
+                  | call x' hx' => simp at hx'
+                  | ite c t e hx' =>
+                    simp only [Term.app.injEq, Args.cons.injEq, true_and, and_true] at hx'
+                    exact ⟨c, t, hx'.1⟩
+                  | ifthen c t hx' => simp at hx'
+                  | once x' hx' => simp at hx'
+                  | neg x' hx' => simp at hx'
+              obtain ⟨c, t, rfl⟩ := hx
+              simp only [toReps, RepList.cons.injEq] at hargs
+              obtain ⟨ha, hb, _⟩ := hargs
+              subst ha; subst hb
+              rw [toRep_app_ne_dot _ _ (by decide)]
+              simp only [toReps]
+              rw [toRep_app_ne_dot "->" _ (by decide)]
+              simp [toReps]
             | cons _ _ => simp [toReps] at hargs
       · rfl
   | _ => simp [toRep, altBodies]
@@ -351,17 +583,17 @@ theorem seqGoals_leaves (b : Term) : ∃ ts : List Term, seqGoals (toRep b) = ts
     exact ⟨[t], seqGoals_leaf _ (toRep_not_comma t (fun a b h => hne a b h)), rfl⟩
 
 /-- every goal of a body of the fragment is callable, and is the cut or a Horn goal -/
-theorem bodyOK_goals (b : Term) (h : bodyOK b = true) :
-    ∀ g ∈ seqGoals (toRep b), CallableGoal g = true ∧ (g = .atom "!" ∨ hornGoal (goalTerm g) = true) := by
+theorem bodyOK_goals {s : Bool} (b : Term) (h : bodyS s b = true) :
+    ∀ g ∈ seqGoals (toRep b), CallableGoal g = true ∧ (g = .atom "!" ∨ stepGoal s (goalTerm g) = true) := by
   intro g hg
   obtain ⟨ts, hts, hconj⟩ := seqGoals_leaves b
   rw [hts, List.mem_map] at hg
   obtain ⟨t, ht, rfl⟩ := hg
-  have hh : cutGoal (SLD.wrapVar t) = true := by
-    simp only [bodyOK, List.all_eq_true, hconj] at h
+  have hh : goalS s (SLD.wrapVar t) = true := by
+    simp only [bodyS, List.all_eq_true, hconj] at h
     exact h _ (List.mem_map_of_mem ht)
   rw [goalTerm_toRep]
-  rcases cutGoal_cases hh with hc | hc
+  rcases goalS_cases hh with hc | hc
   · have ht' : t = .atom "!" := by
       cases t <;> simp_all [SLD.wrapVar, SLD.call1]
     subst ht'
@@ -374,9 +606,9 @@ theorem bodyOK_goals (b : Term) (h : bodyOK b = true) :
       rw [toRep]; unfold mkApp; split
       · split <;> simp [CallableGoal]
       · simp [CallableGoal]
-    | int _ => simp [SLD.wrapVar, hornGoal] at hc
-    | flt _ => simp [SLD.wrapVar, hornGoal] at hc
-    | str _ => simp [SLD.wrapVar, hornGoal] at hc
+    | int _ => simp [SLD.wrapVar, hornGoal, stepGoal, ctlGoal] at hc
+    | flt _ => simp [SLD.wrapVar, hornGoal, stepGoal, ctlGoal] at hc
+    | str _ => simp [SLD.wrapVar, hornGoal, stepGoal, ctlGoal] at hc
 
 /-- the shape of the compiled form of a clause of the fragment -/
 structure HeadLayout (h : Term) (cl : Clause) (hargs : RepList) : Prop where
@@ -386,40 +618,54 @@ structure HeadLayout (h : Term) (cl : Clause) (hargs : RepList) : Prop where
   name : cl.name = functorName h
   arity : cl.arity = (argList h).length
   args : (Rep.absArgs hargs).toList = argList h
-  user : userPred (functorName h) (argList h).length = true
-  horn : hornHead h = true
+  horn : headOK h = true
 
-theorem hornHead_toRep {h : Term} (hh : hornHead h = true) (hw : wfT h = true) :
-    CallableHead (toRep h) = true ∧ WF (toRep h) = true ∧
-    headName (toRep h) = functorName h ∧ (Rep.absArgs (headArgs (toRep h))).toList = argList h ∧
-    userPred (functorName h) (argList h).length = true ∧
-    (∀ x y, toRep h ≠ .compound ":-" (.cons x (.cons y .nil))) := by
+theorem headOK_of_horn {h : Term} (hh : hornHead h = true) : headOK h = true := by
   cases h with
-  | atom f =>
-    refine ⟨rfl, rfl, rfl, rfl, by simpa [hornHead, functorName, argList] using hh, by simp [toRep]⟩
+  | atom f => rfl
   | app f as =>
     have hu : userPred f as.length = true := by
       simp only [hornHead, Bool.and_eq_true] at hh; exact hh.2
     have hf : f ≠ "." := by rintro rfl; exact reserved_not_user hu (by decide)
     have hf2 : f ≠ ":-" := by rintro rfl; exact reserved_not_user hu (by decide)
+    simp only [hornHead, Bool.and_eq_true] at hh
+    simp [headOK, hh.1, hf, hf2]
+  | _ => simp [hornHead] at hh
+
+/-- a clause with a user predicate name whose body has one alternative -/
+theorem clauseC_of_S1 {s : Bool} {c : Term} (h : wfT c = true) (hh : hornHead (SLD.headBody c).1 = true)
+    (hb : bodyS s (SLD.headBody c).2 = true) : clauseC s c = true := by
+  simp only [clauseC, Bool.and_eq_true]
+  exact ⟨⟨h, headOK_of_horn hh⟩, hb⟩
+
+theorem hornHead_toRep {h : Term} (hh : headOK h = true) (hw : wfT h = true) :
+    CallableHead (toRep h) = true ∧ WF (toRep h) = true ∧
+    headName (toRep h) = functorName h ∧ (Rep.absArgs (headArgs (toRep h))).toList = argList h ∧
+    (∀ x y, toRep h ≠ .compound ":-" (.cons x (.cons y .nil))) := by
+  cases h with
+  | atom f =>
+    refine ⟨rfl, rfl, rfl, rfl, by simp [toRep]⟩
+  | app f as =>
+    simp only [headOK, Bool.and_eq_true, bne_iff_ne, ne_eq, decide_eq_true_eq] at hh
+    have hf : f ≠ "." := hh.1.2
+    have hf2 : f ≠ ":-" := hh.2
     rw [toRep_app_ne_dot _ _ hf]
-    refine ⟨rfl, ?_, rfl, by simp [headArgs, absArgs_toReps, argList], by simpa [functorName, argList] using hu,
-      by simp [hf2]⟩
+    refine ⟨rfl, ?_, rfl, by simp [headArgs, absArgs_toReps, argList], by simp [hf2]⟩
     have := toRep_wf _ hw
     rwa [toRep_app_ne_dot _ _ hf] at this
-  | _ => simp [hornHead] at hh
+  | _ => simp [headOK] at hh
 
 /-- **a rule of the fragment** compiles to one clause: head code, `enter`, the code of the body
     goals — which are the reference's conjuncts of the body — in order, `exit` -/
-theorem horn_rule_layout (h b : Term) (hc : clauseOK (.app ":-" (.cons h (.cons b .nil))) = true) :
+theorem horn_rule_layout {s : Bool} (h b : Term) (hc : clauseC s (.app ":-" (.cons h (.cons b .nil))) = true) :
     ∃ cl hargs bops gs, compile (toRep (.app ":-" (.cons h (.cons b .nil)))) = .ok [cl] ∧
       HeadLayout h cl hargs ∧
       cl.code = headCode hargs {} ++ Op.enter :: (bops ++ [Op.exit]) ∧
       BodySem cl.vars bops gs ∧ gs.map goalTerm = SLD.conjuncts b ∧
-      (∀ g ∈ gs, g = .atom "!" ∨ hornGoal (goalTerm g) = true) := by
-  simp only [clauseOK, SLD.headBody, Bool.and_eq_true, wfT, wfAs, Bool.and_true] at hc
+      (∀ g ∈ gs, g = .atom "!" ∨ stepGoal s (goalTerm g) = true) := by
+  simp only [clauseC, SLD.headBody, Bool.and_eq_true, wfT, wfAs, Bool.and_true] at hc
   obtain ⟨⟨⟨hwh, hwb⟩, hh⟩, hb⟩ := hc
-  obtain ⟨hch, hwfh, hname, hargs, huser, _⟩ := hornHead_toRep hh hwh
+  obtain ⟨hch, hwfh, hname, hargs, _⟩ := hornHead_toRep hh hwh
   have hwfb := toRep_wf b hwb
   have hrep : toRep (.app ":-" (.cons h (.cons b .nil))) =
       .compound ":-" (.cons (toRep h) (.cons (toRep b) .nil)) := by
@@ -441,13 +687,13 @@ theorem horn_rule_layout (h b : Term) (hc : clauseOK (.app ":-" (.cons h (.cons 
     obtain ⟨bops, hcode, hsem, hpre, hnd, hn, har⟩ :=
       rule_clause_layout (toRep h) (toRep b) [cl] hwfh hwfb hch hcomp 0 cl (toRep b) rfl (by rw [halt]; rfl)
     refine ⟨cl, headArgs (toRep h), bops, seqGoals (toRep b), rfl,
-      ⟨wfs_headArgs _ hwfh, hpre, hnd, by rw [hn, hname], ?_, hargs, huser, hh⟩, hcode, hsem, seqGoals_toRep b, ?_⟩
+      ⟨wfs_headArgs _ hwfh, hpre, hnd, by rw [hn, hname], ?_, hargs, hh⟩, hcode, hsem, seqGoals_toRep b, ?_⟩
     · rw [har, ← hargs, absArgs_toList_length]
     · intro g hg
       exact (bodyOK_goals b hb g hg).2
 
 /-- **a fact of the fragment** compiles to one clause: head code, `exit` -/
-theorem horn_fact_layout (c : Term) (hc : clauseOK c = true)
+theorem horn_fact_layout {s : Bool} (c : Term) (hc : clauseC s c = true)
     (hne : ∀ h b, c ≠ .app ":-" (.cons h (.cons b .nil))) :
     ∃ cl hargs, compile (toRep c) = .ok [cl] ∧ HeadLayout c cl hargs ∧
       cl.code = headCode hargs {} ++ [Op.exit] := by
@@ -456,9 +702,9 @@ theorem horn_fact_layout (c : Term) (hc : clauseOK c = true)
     split
     · exact absurd rfl (hne _ _)
     · rfl
-  simp only [clauseOK, hhb, Bool.and_eq_true] at hc
+  simp only [clauseC, hhb, Bool.and_eq_true] at hc
   obtain ⟨⟨hw, hh⟩, _⟩ := hc
-  obtain ⟨hch, hwf, hname, hargs, huser, hne'⟩ := hornHead_toRep hh hw
+  obtain ⟨hch, hwf, hname, hargs, hne'⟩ := hornHead_toRep hh hw
   cases hcomp : compile (toRep c) with
   | error e =>
     exfalso
@@ -475,7 +721,82 @@ theorem horn_fact_layout (c : Term) (hc : clauseOK c = true)
   | ok cs =>
     obtain ⟨cl, rfl, hcode, hvars, hnd, hn, har⟩ := fact_clause_layout (toRep c) cs hwf hch hne' hcomp
     refine ⟨cl, headArgs (toRep c), rfl,
-      ⟨wfs_headArgs _ hwf, by rw [hvars]; exact List.prefix_refl _, hnd, by rw [hn, hname], ?_, hargs, huser, hh⟩, hcode⟩
+      ⟨wfs_headArgs _ hwf, by rw [hvars]; exact List.prefix_refl _, hnd, by rw [hn, hname], ?_, hargs, hh⟩, hcode⟩
     rw [har, ← hargs, absArgs_toList_length]
+
+/-! ### the alternatives of a body -/
+
+theorem toRep_eq_compound {t : Term} {f : String} {rs : RepList} (h : toRep t = .compound f rs) (hf : f ≠ ".") :
+    ∃ as, t = .app f as ∧ rs = toReps as := by
+  cases t with
+  | app g as =>
+    by_cases hg : g = "."
+    · subst hg
+      rw [toRep] at h; unfold mkApp at h
+      split at h
+      · split at h <;> cases h
+      · simp only [Rep.compound.injEq] at h; exact absurd h.1.symm hf
+    · rw [toRep_app_ne_dot _ _ hg] at h
+      simp only [Rep.compound.injEq] at h
+      obtain ⟨rfl, rfl⟩ := h
+      exact ⟨as, rfl, rfl⟩
+  | _ => simp [toRep] at h
+
+theorem toReps_eq_two {as : Args} {x y : Rep} (h : toReps as = .cons x (.cons y .nil)) :
+    ∃ a b, as = .cons a (.cons b .nil) ∧ x = toRep a ∧ y = toRep b := by
+  cases as with
+  | nil => simp [toReps] at h
+  | cons a as1 =>
+    cases as1 with
+    | nil => simp [toReps] at h
+    | cons b as2 =>
+      cases as2 with
+      | nil =>
+        simp only [toReps, RepList.cons.injEq, and_true] at h
+        exact ⟨a, b, rfl, h.1.symm, h.2.symm⟩
+      | cons _ _ => simp [toReps] at h
+
+theorem altBodies_semi (x y : Rep) :
+    altBodies (.compound ";" (.cons x (.cons y .nil))) =
+      match x with
+      | .compound "->" (.cons _ (.cons _ .nil)) => [.compound ";" (.cons x (.cons y .nil))]
+      | _ => x :: altBodies y := by
+  conv => lhs; unfold altBodies
+  rfl
+
+theorem altBodies_disj (b : Term) : altBodies (toRep b) = (SLD.disjuncts b).map toRep := by
+  fun_induction SLD.disjuncts b with
+  | case1 c t e =>
+    have e1 : toRep (Term.app ";" (Args.cons (Term.app "->" (Args.cons c (Args.cons t Args.nil))) (Args.cons e Args.nil))) =
+        .compound ";" (.cons (.compound "->" (.cons (toRep c) (.cons (toRep t) .nil))) (.cons (toRep e) .nil)) := by
+      rw [toRep_app_ne_dot _ _ (by decide)]
+      simp only [toReps]
+      rw [toRep_app_ne_dot "->" _ (by decide)]
+      simp only [toReps]
+    simp only [SLD.ifThenElse, SLD.mk2, List.map_cons, List.map_nil, e1]
+    rw [altBodies_semi]
+    rfl
+  | case2 a b hna ih =>
+    have e1 : toRep (Term.app ";" (Args.cons a (Args.cons b Args.nil))) =
+        .compound ";" (.cons (toRep a) (.cons (toRep b) .nil)) := by
+      rw [toRep_app_ne_dot _ _ (by decide)]
+      simp only [toReps]
+    rw [e1, altBodies_semi]
+    split
+    · rename_i x y heq
+      exfalso
+      obtain ⟨as, rfl, has⟩ := toRep_eq_compound heq (by decide)
+      obtain ⟨c, t, rfl, _, _⟩ := toReps_eq_two has.symm
+      exact hna c t rfl
+    · rw [ih]; rfl
+  | case3 t h1 h2 =>
+    unfold altBodies
+    split
+    · rename_i a b heq
+      exfalso
+      obtain ⟨as, rfl, has⟩ := toRep_eq_compound heq (by decide)
+      obtain ⟨x, y, rfl, _, _⟩ := toReps_eq_two has.symm
+      exact h2 x y rfl
+    · rfl
 
 end PrologVerif.Refine
